@@ -12,6 +12,6 @@ CONSTANTS
   MaxRequery = 0
   FixCommitState = TRUE
   SeqSMP = TRUE
-  FixSMPReset = FALSE
+  FixSMPReset = TRUE
 INVARIANTS NoSecondRunAfterSuccess
 CHECK_DEADLOCK FALSE
